@@ -14,7 +14,7 @@ case $what in
 esac
 for c in "$@"; do
   echo "--- $label vs $c"
-  SDV_REPO=$wt timeout 1500 /verif/check $c --no-evidence ${MUTANT_ARGS:-} 2>&1 | grep -a -E "^  \[|^HELD|^VIOLATED|^INCONC|^KNOWN" | cut -c1-330 | head -8
+  SDV_REPO=$wt timeout 1500 /verif/check $c --no-evidence ${MUTANT_ARGS:-} 2>&1 | grep -a -E "^  \[|^HELD|^VIOLATED|^INCONC|^KNOWN" | cut -c1-330 | awk '/^  \[/{n++; if(n<=6)print; next} {print}'
 done
 tdir=/verif/harness/target-$(python3 -c "import hashlib,os;print(hashlib.sha1(os.path.realpath('$wt').encode()).hexdigest()[:8])")
 rm -rf $tdir
